@@ -977,6 +977,170 @@ theorem createRetentionPolicy_print_parse (fuel : Nat) (s : PState) (name db : S
     P.run_bind _ _ s9 fu s10 h10, P.run_bind _ _ s10 pa s11 h11]
   rfl
 
+/-! ### CREATE DATABASE (without options), SHOW STATS / SHOW DIAGNOSTICS [FOR '<module>'] -/
+
+theorem createDatabase_plain_print (name : Str) :
+    (Statement.createDatabase name false none none [] 0 none none).print = tx "CREATE DATABASE" ++ ' ' :: qi name := by
+  have p1 : (Statement.createDatabase name false none none [] 0 none none).print =
+      tx "CREATE DATABASE " ++ qi name ++ [] := rfl
+  have e1 : tx "CREATE DATABASE " = tx "CREATE DATABASE" ++ [' '] := by decide +kernel
+  rw [p1, e1]
+  simp only [List.append_assoc, List.cons_append, List.nil_append, List.append_nil]
+
+/-- **Print → parse, CREATE DATABASE name** (no `WITH` clause): the handler reads the name, looks
+one token ahead for `WITH` and stays around `k`. -/
+theorem createDatabase_plain_print_parse (fuel : Nat) (s : PState) (name k : Str) (hex : Expressible name)
+    (hk : IdentEnd name k) (hstop : NextNot k .WITH) (hs : s.Before (' ' :: qi name ++ k)) :
+    ∃ s', (runHandler fuel .parseCreateDatabaseStatement).run s =
+        .ok (.createDatabase name false none none [] 0 none none, s') ∧ s'.Around k := by
+  obtain ⟨s1, h1, b1⟩ := parseIdent_piece s [' '] (qi name) k name Gap.blank hs.around (scansAs_ident name k hex hk)
+  obtain ⟨s2, h2, b2⟩ := optTok_absent_around .WITH s1 k b1.around hstop
+  refine ⟨s2, ?_, b2⟩
+  simp only [runHandler, parseCreateDatabase]
+  rw [P.run_bind _ _ s name s1 h1, P.run_bind _ _ s1 false s2 h2]
+  rfl
+
+/-- ` FOR '<module>'` when the module is not empty (the printers' test). -/
+def forText (m : Str) : Str := if m ≠ [] then ' ' :: (Token.FOR.str ++ ' ' :: quoteString m) else []
+
+/-- `parseForModule` on its printed form (the empty module prints nothing and is read back as empty). -/
+theorem parseForModule_print (s : PState) (m k : Str) (hex : Expressible m) (hstop : NextNot k .FOR)
+    (hs : s.Before (forText m ++ k)) :
+    ∃ s', parseForModule.run s = .ok (m, s') ∧ s'.Around k := by
+  unfold forText at hs
+  by_cases hm : m = []
+  · subst hm
+    obtain ⟨s1, h1, b1⟩ := optTok_absent_around .FOR s k hs.around hstop
+    refine ⟨s1, ?_, b1⟩
+    unfold parseForModule
+    rw [P.run_bind _ _ s false s1 h1]
+    rfl
+  · rw [if_pos hm] at hs
+    simp only [List.append_assoc, List.cons_append] at hs
+    obtain ⟨s1, h1, b1⟩ := optTok_piece s [' '] Token.FOR.str _ .FOR [] Gap.blank hs.around
+      (scansAs_kw .FOR _ (by decide +kernel) (WordEnd.blank _))
+    obtain ⟨s2, h2, b2⟩ := parseString_piece s1 [' '] (quoteString m) k m Gap.blank b1.around (scansAs_string m k hex)
+    refine ⟨s2, ?_, b2.around⟩
+    unfold parseForModule
+    rw [P.run_bind _ _ s true s1 h1]
+    exact h2
+
+theorem showStats_print (m : Str) :
+    (Statement.showStats m).print = tx "SHOW STATS" ++ forText m ∧
+    (Statement.showDiagnostics m).print = tx "SHOW DIAGNOSTICS" ++ forText m := by
+  have p1 : (Statement.showStats m).print = tx "SHOW STATS" ++ (if m ≠ [] then tx " FOR " ++ quoteString m else []) := rfl
+  have p2 : (Statement.showDiagnostics m).print =
+      tx "SHOW DIAGNOSTICS" ++ (if m ≠ [] then tx " FOR " ++ quoteString m else []) := rfl
+  have e1 : tx " FOR " = ' ' :: (Token.FOR.str ++ [' ']) := by decide +kernel
+  rw [p1, p2, e1]
+  unfold forText
+  split <;> simp only [List.append_assoc, List.cons_append, List.nil_append, and_self]
+
+/-- The two handlers of this family. -/
+def forModuleHandlers : List (Handler × (Str → Statement)) :=
+  [(.parseShowStatsStatement, .showStats), (.parseShowDiagnosticsStatement, .showDiagnostics)]
+
+/-- **Print → parse, SHOW STATS / SHOW DIAGNOSTICS [FOR 'module'].** -/
+theorem forModule_print_parse (fuel : Nat) (h : Handler) (C : Str → Statement) (hh : (h, C) ∈ forModuleHandlers)
+    (s : PState) (m k : Str) (hex : Expressible m) (hstop : NextNot k .FOR) (hs : s.Before (forText m ++ k)) :
+    ∃ s', (runHandler fuel h).run s = .ok (C m, s') ∧ s'.Around k := by
+  obtain ⟨s', hrun, hb⟩ := parseForModule_print s m k hex hstop hs
+  refine ⟨s', ?_, hb⟩
+  simp only [forModuleHandlers, List.mem_cons, Prod.mk.injEq, List.not_mem_nil, or_false] at hh
+  rcases hh with ⟨rfl, rfl⟩ | ⟨rfl, rfl⟩ <;>
+    (simp only [runHandler]; rw [P.run_bind _ _ s m s' hrun]; rfl)
+
+/-! ### non-vacuity of the family theorems
+
+Each on a concrete statement at the end of an input (`k` = the NUL sentinel). -/
+
+/-- The state of a parser started on a text without CR. -/
+theorem init_before (text : Str) (h : foldCR text = text) : (PState.init text [] []).Before (text ++ [eofRune]) := by
+  have := PState.init_before text [] []
+  rwa [h] at this
+
+theorem stop_eof (l : List Token) (h : ∀ t ∈ l, t ≠ .EOF) : ∀ t ∈ l, NextNot [eofRune] t :=
+  fun t ht => nextNot_eof t (h t ht)
+
+/-- `KILL QUERY 36 ON "host 1"`. -/
+example : ∃ sK, Returns (runHandler 10 .parseKillQueryStatement) (PState.init (killQueryText 36 "host 1".toList) [] [])
+    (.killQuery 36 "host 1".toList) sK false [.ON] := by
+  obtain ⟨sK, _, h⟩ := killQuery_print_parse 10 (PState.init (killQueryText 36 "host 1".toList) [] []) 36
+    "host 1".toList [eofRune] (by decide) (by decide) (.of_wordEnd .eof) .eof (init_before _ (by decide +kernel))
+  exact ⟨sK, h⟩
+
+/-- `DROP SUBSCRIPTION sub0 ON "my db".autogen`. -/
+example : ∃ s', (runHandler 10 .parseDropSubscriptionStatement).run
+    (PState.init (dropSubscriptionText "sub0".toList "my db".toList "autogen".toList) [] []) =
+      .ok (.dropSubscription "sub0".toList "my db".toList "autogen".toList, s') := by
+  obtain ⟨s', h, _⟩ := dropSubscription_print_parse 10
+    (PState.init (dropSubscriptionText "sub0".toList "my db".toList "autogen".toList) [] []) "sub0".toList
+    "my db".toList "autogen".toList [eofRune] (by decide) (by decide) (by decide) (.of_wordEnd .eof)
+    (init_before _ (by decide +kernel))
+  exact ⟨s', h⟩
+
+/-- `CREATE USER "jo e" WITH PASSWORD 'it''s' WITH ALL PRIVILEGES` (password with an escaped quote). -/
+example : ∃ sK, Returns (runHandler 10 .parseCreateUserStatement)
+    (PState.init (createUserText "jo e".toList (quoteString "it's".toList) true) [] [])
+    (.createUser "jo e".toList "it's".toList true) sK false [.WITH] := by
+  obtain ⟨sK, _, h⟩ := createUser_print_parse 10
+    (PState.init (createUserText "jo e".toList (quoteString "it's".toList) true) [] []) "jo e".toList "it's".toList
+    true [eofRune] (by decide) (by decide) (fun _ => .eof) (init_before _ (by decide +kernel))
+  exact ⟨sK, h⟩
+
+/-- `SET PASSWORD FOR bob = 'pa\\ss'`. -/
+example : ∃ s', (runHandler 10 .parseSetPasswordUserStatement).run
+    (PState.init (setPasswordText "bob".toList (quoteString "pa\\ss".toList)) [] []) =
+      .ok (.setPasswordUser "pa\\ss".toList "bob".toList, s') := by
+  obtain ⟨s', h, _⟩ := setPassword_print_parse 10
+    (PState.init (setPasswordText "bob".toList (quoteString "pa\\ss".toList)) [] []) "bob".toList "pa\\ss".toList
+    [eofRune] (by decide) (by decide) (init_before _ (by decide +kernel))
+  exact ⟨s', h⟩
+
+/-- `GRANT ALL PRIVILEGES ON "select" TO alice` and `REVOKE ALL PRIVILEGES FROM "a b"`. -/
+example : (∃ s', (runHandler 10 .parseGrantStatement).run
+      (PState.init (grantText .all "select".toList "alice".toList) [] []) =
+        .ok (.grant .all "select".toList "alice".toList, s')) ∧
+    (∃ s', (runHandler 10 .parseRevokeStatement).run (PState.init (revokeAdminText "a b".toList) [] []) =
+        .ok (.revokeAdmin "a b".toList, s')) := by
+  obtain ⟨s1, h1, _⟩ := grant_print_parse 10 (PState.init (grantText .all "select".toList "alice".toList) [] []) .all
+    "select".toList "alice".toList [eofRune] (by decide) (by decide) (by decide) (.of_wordEnd .eof)
+    (init_before _ (by decide +kernel))
+  obtain ⟨s2, h2, _⟩ := revokeAdmin_print_parse 10 (PState.init (revokeAdminText "a b".toList) [] []) "a b".toList
+    [eofRune] (by decide) (.of_wordEnd .eof) (init_before _ (by decide +kernel))
+  exact ⟨⟨s1, h1⟩, ⟨s2, h2⟩⟩
+
+/-- `CREATE RETENTION POLICY "1h" ON db0 DURATION 90m REPLICATION 3 SHARD DURATION 1h DEFAULT PAST LIMIT 5s`. -/
+example : ∃ s', (runHandler 10 .parseCreateRetentionPolicyStatement).run
+    (PState.init (crpText "1h".toList "db0".toList 5400000000000 3 3600000000000 true 0 5000000000) [] []) =
+      .ok (.createRetentionPolicy "1h".toList "db0".toList 5400000000000 3 true 3600000000000 0 5000000000, s') := by
+  obtain ⟨s', h, _⟩ := createRetentionPolicy_print_parse 10
+    (PState.init (crpText "1h".toList "db0".toList 5400000000000 3 3600000000000 true 0 5000000000) [] [])
+    "1h".toList "db0".toList 5400000000000 3 3600000000000 true 0 5000000000 [eofRune] (by decide) (by decide)
+    (by decide) (by decide) (by decide) (by decide) (by decide) .eof (stop_eof _ (by decide))
+    (init_before _ (by decide +kernel))
+  exact ⟨s', h⟩
+
+example : crpText "1h".toList "db0".toList 5400000000000 3 3600000000000 true 0 5000000000 =
+    " \"1h\" ON db0 DURATION 90m REPLICATION 3 SHARD DURATION 1h DEFAULT PAST LIMIT 5s".toList := by decide +kernel
+
+/-- `SHOW RETENTION POLICIES` (no database) and `SHOW STATS FOR 'runtime'` and `CREATE DATABASE "my-db"`. -/
+example : (∃ sK, Returns (runHandler 10 .parseShowRetentionPoliciesStatement) (PState.init [] [] [])
+      (.showRetentionPolicies []) sK true [.ON]) ∧
+    (∃ s', (runHandler 10 .parseShowStatsStatement).run (PState.init (forText "runtime".toList) [] []) =
+      .ok (.showStats "runtime".toList, s')) ∧
+    (∃ s', (runHandler 10 .parseCreateDatabaseStatement).run (PState.init (' ' :: qi "my-db".toList) [] []) =
+      .ok (.createDatabase "my-db".toList false none none [] 0 none none, s')) := by
+  obtain ⟨sK, _, h1⟩ := showRetentionPolicies_print_parse 10 (PState.init [] [] []) [] [eofRune] (by decide)
+    (.of_wordEnd .eof) (init_before [] rfl)
+  obtain ⟨s2, h2, _⟩ := forModule_print_parse 10 .parseShowStatsStatement .showStats (by simp [forModuleHandlers])
+    (PState.init (forText "runtime".toList) [] []) "runtime".toList [eofRune] (by decide)
+    (nextNot_eof _ (by decide)) (init_before _ (by decide +kernel))
+  obtain ⟨s3, h3, _⟩ := createDatabase_plain_print_parse 10 (PState.init (' ' :: qi "my-db".toList) [] [])
+    "my-db".toList [eofRune] (by decide) (.of_wordEnd .eof) (nextNot_eof _ (by decide))
+    (init_before _ (by decide +kernel))
+  exact ⟨⟨sK, h1⟩, ⟨s2, h2⟩, ⟨s3, h3⟩⟩
+
 /-! ## the dispatch keywords at text level
 
 `ParseStatement` walks the tree of parse_tree.go along the statement's keywords. On the printed
@@ -1080,7 +1244,11 @@ def familyPaths : List (Str × List Token × Handler) :=
    (tx "CREATE USER", [.CREATE, .USER], .parseCreateUserStatement),
    (tx "SET PASSWORD FOR", [.SET, .PASSWORD, .FOR], .parseSetPasswordUserStatement),
    (tx "GRANT", [.GRANT], .parseGrantStatement),
-   (tx "REVOKE", [.REVOKE], .parseRevokeStatement)]
+   (tx "REVOKE", [.REVOKE], .parseRevokeStatement),
+   (tx "CREATE RETENTION POLICY", [.CREATE, .RETENTION, .POLICY], .parseCreateRetentionPolicyStatement),
+   (tx "CREATE DATABASE", [.CREATE, .DATABASE], .parseCreateDatabaseStatement),
+   (tx "SHOW STATS", [.SHOW, .STATS], .parseShowStatsStatement),
+   (tx "SHOW DIAGNOSTICS", [.SHOW, .DIAGNOSTICS], .parseShowDiagnosticsStatement)]
 
 /-- Obligation on the regenerated tables: every path above is printed as its keywords, consists of
 keywords of the scanner's table, and selects its handler from the root of the dispatch tree. -/
